@@ -107,7 +107,7 @@ class C15(object):
     rule = ("one run = (overlap graph with 1..60 nodes: chains in both directions and shuffled, stars, cliques, forests, "
             "duplicates, self loops, isolated nodes, no edges; property table; T = 1..16 simulated numba threads with "
             "contiguous or random chunks; strategy; interleaving between bytecodes); distinct = distinct (graph digest, "
-            "T, chunking, schedule signature); non-trivial = the graph has an edge between different nodes and T >= 2; also: omega/dty/scale as 1-D or 2-D maps in C/Fortran/transposed/strided layout and float32/integer dtype, int32/unsigned index arrays, the same table merged 1-3 times, the overlap matrix dumped in between, renumbering of converged labellings beyond 4096 peaks, native conformance at 1/2/4 numba threads and on one long shuffled chain, labels of the first call looked at after a second labelling, scale factors of exactly 0")
+            "T, chunking, schedule signature); non-trivial = the graph has an edge between different nodes and T >= 2; also: omega/dty/scale as 1-D or 2-D maps in C/Fortran/transposed/strided layout and float32/integer dtype, int32/unsigned index arrays, the same table merged 1-3 times, the overlap matrix dumped in between, renumbering of converged labellings beyond 4096 peaks, native conformance at 1/2/4 numba threads and on one long shuffled chain, labels of the first call looked at after a second labelling, scale factors of exactly 0, the labelled table saved next to another one and read back")
     components = {"real": ["ImageD11.sinograms.properties: find_ND_labels, pks_table.find_uniq / pk2dmerge / pk2d (unchanged "
                            "Python); the Python source (py_func) of numbalabelNd, get_clean_labels, n_pk2d",
                            "natively compiled numbalabelNd/get_clean_labels/numbapkmerge at numba thread counts 1, 2, 4 "
@@ -218,6 +218,7 @@ class C15(object):
                                 # it takes hundreds of sweeps)
                                 "shape": rnd.choice(["local", "chain", "chain"]), "chain_n": rnd.choice([300, 700, 1500, 3000])}
                                if rnd.random() < (0.004 if ctx.tier == "quick" else 0.0008) else None),
+                "persist": rnd.random() < 0.2,
                 "native": rnd.random() < 0.04, "layout": layout, "shape2": shape2, "big_clean": big_clean,
                 "idx_dtype": rnd.choice(["int64", "int64", "int64", "int32", "uint32", "uint16", "uint64"]),
                 "merge_calls": [rnd.random() < 0.5 for _ in range(rnd.choice([0, 0, 1, 2]))],
@@ -402,6 +403,20 @@ class C15(object):
                                        tab.pk2dmerge(om, dy, scale_factor=sfk)))     # kept as returned, looked at after the last call
             res["merged"] = {k: np.array(v) for k, v in tab.pk2dmerge(om, dy, scale_factor=sf).items()}
             res["pk2d"] = {k: np.array(v) for k, v in tab.pk2d(om, dy, scale_factor=sf).items()}
+            if desc.get("persist") and n:
+                # the labelled table is saved next to another table (the file's default group) and read back from its own group
+                pth = os.path.join(ctx.scratch, "c15_tab_%d.h5" % os.getpid())
+                if os.path.exists(pth):
+                    os.remove(pth)
+                first = props.pks_table(ipk=np.array([0, n]), pk_props=np.array(desc["props"], np.int64),
+                                        glabel=np.arange(n), nlabel=n)           # every 2D peak a merged peak of its own
+                first.npk = np.array([[n, 0, 0]])
+                first.save(pth)
+                tab.npk = np.array([[n, len(E), 0]])
+                tab.save(pth, group="scan2")
+                back = props.pks_table.load(pth, h5group="scan2")
+                res["persist"] = (int(back.nlabel), None if back.glabel is None else np.array(back.glabel))
+                os.remove(pth)
             if desc.get("relabel_edges"):
                 # more overlaps arrive (rows come in batches): the same table is labelled again for the larger graph
                 E2 = list(E) + [tuple(e) for e in desc["relabel_edges"]]
@@ -431,6 +446,11 @@ class C15(object):
             for nm, o in saved.items():
                 setattr(props, nm, o)
             props.numba = saved_numba
+        if viol is None and res.get("persist") is not None:
+            pn_, pl_ = res["persist"]
+            if pn_ != res["nlabel"] or pl_ is None or not np.array_equal(pl_, res["labels"]):
+                viol = V("labels-not-0..n-1", "the labelled table saved into the group 'scan2' of a file that also holds another table "
+                                              "reads back with %d labels (it has %d) or with other labels" % (pn_, res["nlabel"]))
         if viol is None and res.get("first_labels_overwritten"):
             viol = V("labels-not-0..n-1", "the label array returned by find_uniq() changed when the same table was labelled again for a "
                                           "larger graph: the caller's labels of the first graph are no longer its connected components")
